@@ -4,7 +4,7 @@ over exact rationals.
 T1  stock <- flow <- constant                       (constants: constant;  initial: s0)
 T2  stockA -move-> stockB, gain = k*lookup(time,tbl), move = gain - drain*lookup(time,tbl2)   (biflow, converter, two named tables)
 T3  tank initialised from constant `init`, outflow leak = max(0, net(rate)) with the user function net(x) = x - threshold, half = tank/2 (converter on a stock)
-T5  pile <- lagged = delay(pace, 1.0) <- constant pace     (a look-back function on a constant)
+T5  pile <- lagged * gain, lagged = delay(pace, 1.0) <- constant pace     (a look-back function on a constant, and a second constant)
 
 All default parameters are dyadic (k/8) so that the real code and the rational reference
 perform exactly representable arithmetic whenever dt is dyadic as well.
@@ -17,7 +17,7 @@ DEFAULTS = {
     "T2": {"constants": {"drain": 0.5, "k": 1.5}, "initial": {"stockA": 10.0, "stockB": 2.0},
            "points": {"tbl": [[0.0, 1.0], [4.0, 3.0], [8.0, 0.0], [16.0, 2.0]], "tbl2": [[0.0, 1.0], [100.0, 1.0]]}},
     "T3": {"constants": {"init": 20.0, "rate": 2.5, "threshold": 1.0}, "initial": {}, "points": {}},
-    "T5": {"constants": {"pace": 1.0}, "initial": {"pile": 0.0}, "points": {}},
+    "T5": {"constants": {"pace": 1.0, "gain": 1.0}, "initial": {"pile": 0.0}, "points": {}},
 }
 LAG = 1.0       # T5: lagged = delay(pace, LAG): a converter that looks BACK at a constant
 
@@ -25,12 +25,12 @@ ELEMENTS = {
     "T1": ["stock", "flow", "constant"],
     "T2": ["stockA", "stockB", "move", "gain", "drain", "k"],
     "T3": ["tank", "leak", "half", "init", "rate", "threshold"],
-    "T5": ["pile", "lagged", "pace"],
+    "T5": ["pile", "lagged", "pace", "gain"],
 }
 
 ELEMENTS["T4"] = ["stock", "flow", "constant", "factor"]      # XMILE-sourced, see models/xmile_t4.py
 STOCKS = {"T1": ["stock"], "T2": ["stockA", "stockB"], "T3": ["tank"], "T5": ["pile"]}
-CONSTANTS = {"T1": ["constant"], "T2": ["drain", "k"], "T3": ["init", "rate", "threshold"], "T4": ["constant"], "T5": ["pace"]}
+CONSTANTS = {"T1": ["constant"], "T2": ["drain", "k"], "T3": ["init", "rate", "threshold"], "T4": ["constant"], "T5": ["pace", "gain"]}
 TABLES = {"T1": [], "T2": ["tbl", "tbl2"], "T3": [], "T4": ["factor"], "T5": []}
 
 
@@ -106,10 +106,12 @@ def define(m, template, constants=None, points=None, initial=None):
         pace = m.constant("pace")
         lagged = m.converter("lagged")
         pile = m.stock("pile")
+        gain = m.constant("gain")
         pace.equation = float(c["pace"])
+        gain.equation = float(c["gain"])
         lagged.equation = sd.delay(m, pace, LAG)
         pile.initial_value = float(i["pile"])
-        pile.equation = lagged
+        pile.equation = lagged * gain        # (a second constant, which nothing looks back at)
     else:
         raise ValueError(template)
     return m
@@ -200,13 +202,14 @@ def reference(template, start, dt, nsteps, params_at, initial=None):
             row["half"] = row["tank"] / 2
         elif template == "T5":
             row["pace"] = c["pace"]
+            row["gain"] = c["gain"]
             n = int(F(str(LAG)) / h)
             # what the constant WAS at t - LAG (its value at the start before that): later settings do not rewrite the past
             row["lagged"] = out[k - n]["pace"] if k >= n else (out[0]["pace"] if out else c["pace"])
             if k == 0:
                 row["pile"] = F(str((initial or DEFAULTS["T5"]["initial"])["pile"]))
             else:
-                row["pile"] = prev["pile"] + h * prev["lagged"]
+                row["pile"] = prev["pile"] + h * prev["lagged"] * prev["gain"]
         out.append(row)
         prev = row
     return out
